@@ -30,7 +30,24 @@
 //	C07/stream-broke-after-negotiation/{dialer,listener}   second round trip after a long idle failed (all strata)
 //	C07/panic
 //
-// Strata (drawn first): fault-free with real resource managers (3/5); one injected resource-manager refusal
+// Transport stratum (drawn FIRST, 3:1:1): TCP (insecure|noise + yamux, simnet TCP model) | QUIC | WebTransport
+// over QUIC (real quic-go, p2p/transport/quic, quicreuse, webtransport-go, all instrumented, over simnet's UDP
+// model; nodes built with QUIC: true, NoTCPListen: true [+ WebTransport: true, NoQUICListen: true], the dial
+// target is QAddr / WTAddr(); simrand.Install before the nodes are built). Workload and oracles are the same
+// in every transport stratum. On the QUIC strata the UDP wire draws duplication (0|5 %) and reordering
+// (0/1/15 ms per copy) for the whole run and datagram loss (0|3|12 %) for the first k rounds only - never
+// during connect or the teardown audit. Opens made while loss is active are "relaxed" exactly like opens under
+// an injected refusal (may fail or time out; liveness oracles, handler-ran-for-failed-open and the second
+// round trip are off; class tag /udp-loss); every safety oracle (handler choice, agreement of the ends,
+// cross-talk, scope counters at quiescence) stays on: negotiation RESULTS must not depend on the wire. After a
+// lossy round loss stops and a virtual minute passes (retransmission timers, 30 s idle timeout of a connection
+// whose CONNECTION_CLOSE was lost) before the teardown audit and before any later, loss-free round, whose
+// opens get the full liveness oracles again. Idle usage: 2x the listener's negotiation timeout (2-20 s, below
+// QUIC's 30 s idle timeout and yamux's keep-alive period); on 1/3 of the QUIC runs 40 s, which only the
+// transport's 15 s keep-alives carry across the idle timeout. C07_TRANSPORT=tcp|quic|webtransport forces the
+// stratum (sensitivity runs only).
+//
+// Strata (drawn next): fault-free with real resource managers (3/5); one injected resource-manager refusal
 // of SetProtocol on either node (1/5; an open may then fail, liveness oracles and "handler ran for a failed
 // open" are off, every safety oracle stays on); fault-free with network.NullResourceManager on both nodes
 // (1/5; its stream scope accepts any number of SetProtocol calls, so a second SetProtocol issued by a host's
@@ -57,7 +74,7 @@
 //   - scope counters are compared for the protocol IDs of the workload only (identify's own streams use
 //     /ipfs/id/1.0.0 and /ipfs/id/push/1.0.0 and are not looked at).
 //
-// Not covered: limited (relayed) connections, wire faults on the identify push (staleness is produced by
+// Not covered: limited (relayed) connections, scripted UDP partitions / adversarial datagrams, wire faults on the identify push (staleness is produced by
 // racing the push, by link latency and by mutating through Host.Mux(), which emits no event).
 //
 // Sensitivity. Each mutation was applied alone to a private copy of the generated overlay (instrumented
@@ -96,6 +113,15 @@
 //	s3  basic newStreamHandler clears only the READ deadline after Negotiate (write deadline of the negotiation survives)
 //	      -> C07/stream-broke-after-negotiation/listener (handler's later Write: "i/o deadline reached"); run 8, missed before the idle usage existed
 //
+// Through the QUIC strata (scratch worktree + VERIF_REPO + C07_TRANSPORT, ./check C07 quick, 8 workers), all caught:
+//
+//	m1 via quic -> C07/ends-disagree/eager, open-succeeded-without-common-protocol/eager (48 runs)
+//	m2 via webtransport -> C07/stream-not-bound/lazy/basic-dialer[/udp-loss|/refusal-injected] (72 runs)
+//	m6 via quic -> C07/removed-handler-ran (+ open-succeeded-without-common-protocol/eager)
+//	s3 via quic -> C07/stream-broke-after-negotiation/listener (handler's later Write: "deadline exceeded")
+//	q1 QUIC-specific: p2p/transport/quic/stream.go CloseWrite mapped to CancelWrite (a reset instead of a FIN)
+//	      -> C07/first-use-failed-although-supported/{lazy,eager} (read-only client / CloseWrite usages), 81 runs
+//
 // Not caught by design: identify never pushing protocol changes (the statement allows stale knowledge to fail at first use).
 //
 // Genuine defect found on the tree before 53b34e0 (now fixed there): the blank host ignored a refused
@@ -106,6 +132,7 @@ import (
 	"context"
 	"fmt"
 	"io"
+	"os"
 	"sort"
 	"strings"
 	"testing"
@@ -113,6 +140,7 @@ import (
 
 	"github.com/libp2p/go-libp2p/core/host"
 	"github.com/libp2p/go-libp2p/core/network"
+	"github.com/libp2p/go-libp2p/core/peer"
 	"github.com/libp2p/go-libp2p/core/peerstore"
 	"github.com/libp2p/go-libp2p/core/protocol"
 	basichost "github.com/libp2p/go-libp2p/p2p/host/basic"
@@ -124,6 +152,7 @@ import (
 	"verifsim/harness/common"
 	"verifsim/simhost"
 	"verifsim/simnet"
+	"verifsim/simrand"
 	"verifsim/simrt"
 	"verifsim/simsync"
 )
@@ -178,6 +207,14 @@ func (m mutPlan) String() string {
 }
 
 const (
+	trTCP  = 0
+	trQUIC = 1
+	trWT   = 2
+)
+
+var trNames = []string{"tcp", "quic", "webtransport"}
+
+const (
 	useNormal     = 0 // Write(nonce); Read(reply); hold; end
 	useCloseWrite = 1 // Write(nonce); CloseWrite; Read(reply); hold; end
 	useUnused     = 2 // no I/O at all, end immediately
@@ -216,6 +253,13 @@ type plan struct {
 	fault          bool          // stratum: one injected resource-manager refusal of SetProtocol
 	nullRcmgr      bool          // stratum: both nodes run with network.NullResourceManager
 	negB           time.Duration // listener's HostOpts.NegotiationTimeout (basic host; 0 = simhost default 10 s)
+	transport      int           // trTCP | trQUIC | trWT
+	udpDrop        int           // permille, QUIC strata
+	udpDup         int
+	udpLat         []time.Duration
+	udpLossRounds  int  // datagram loss is active during rounds [0, udpLossRounds)
+	longIdle       bool // QUIC strata: the idle usage idles 40 s (beyond QUIC's 30 s idle timeout; 15 s keep-alives must hold the connection)
+	randSeed       uint64
 	faultRound     int
 	faultOnB       bool
 	faultN         int
@@ -287,6 +331,17 @@ func (t planTable) live() []protocol.ID {
 
 func drawPlan(g simrt.Gen) plan {
 	var p plan
+	// transport stratum first: 0 TCP (security + yamux), 1 QUIC, 2 WebTransport over QUIC; the rest of the
+	// plan is drawn the same way in every stratum (link settings of the TCP model are unused on QUIC)
+	p.transport = g.Weighted(3, 1, 1)
+	switch os.Getenv("C07_TRANSPORT") { // sensitivity runs only: force one transport stratum (the draw is still consumed)
+	case "tcp":
+		p.transport = trTCP
+	case "quic":
+		p.transport = trQUIC
+	case "webtransport":
+		p.transport = trWT
+	}
 	// stratum first: 0 fault-free with real resource managers, 1 one injected SetProtocol refusal,
 	// 2 fault-free with network.NullResourceManager on both nodes (a stream scope that accepts any number
 	// of SetProtocol calls; no scope oracles there)
@@ -368,6 +423,20 @@ func drawPlan(g simrt.Gen) plan {
 		p.faultOnB = g.Bool()
 		p.faultN = 1 + g.Int(4)
 	}
+	if p.transport != trTCP {
+		// light faults on the UDP wire: loss only during the rounds < udpLossRounds (never during connect,
+		// never during the teardown audit), duplication and reordering throughout
+		p.udpDrop = []int{0, 30, 120}[g.Weighted(2, 1, 1)]
+		p.udpDup = []int{0, 50}[g.Weighted(2, 1)]
+		if g.Chance(1, 2) {
+			p.udpLat = []time.Duration{0, time.Millisecond, 15 * time.Millisecond}
+		}
+		if p.udpDrop > 0 {
+			p.udpLossRounds = 1 + g.Int(len(p.rounds))
+		}
+		p.longIdle = g.Chance(1, 3)
+		p.randSeed = uint64(1 + g.Int(1000))
+	}
 	return p
 }
 
@@ -408,6 +477,7 @@ type openRec struct {
 	use2Err    string
 	use2Done   uint64
 	faultArmed bool
+	lossy      bool // datagram loss was active on the UDP wire during this open
 }
 
 type invocation struct {
@@ -664,7 +734,13 @@ func (w *world) open(op *openRec, rel <-chan struct{}, reached func()) {
 	s.SetDeadline(time.Time{})
 	if op.plan.use == useIdle {
 		// a stream that stays in use long after it was negotiated: bytes must keep flowing both ways
+		// twice the listener's negotiation timeout (2-20 s): below QUIC's 30 s connection idle timeout and
+		// yamux's 30 s keep-alive period; on the QUIC strata optionally 40 s, which only the transport's
+		// 15 s keep-alives carry across the idle timeout
 		idle := 2 * w.negTimeoutB()
+		if w.p.longIdle {
+			idle = 40 * time.Second
+		}
 		simrt.TimeSleep(idle)
 		op.idled = idle
 		op.nonce2 = "M" + op.nonce[1:]
@@ -765,14 +841,36 @@ func run(t *testing.T, tape *simrt.Tape) *common.Outcome {
 	o.Logf("dialer=%s listener=%s security=%s link=%d latencies=%v simultaneous-connect=%v fault=%v(round %d onB=%v n=%d)",
 		hn(p.blankA), hn(p.blankB), p.secu, p.mode, p.lat, p.simul, p.fault, p.faultRound, p.faultOnB, p.faultN)
 	o.Logf("listener negotiation timeout: %v", w.negTimeoutB())
+	o.Probe("transport-" + trNames[p.transport])
+	if p.transport != trTCP {
+		o.Logf("transport=%s udp: drop=%d permille during rounds <%d, dup=%d permille, latencies=%v, long idle=%v", trNames[p.transport], p.udpDrop, p.udpLossRounds, p.udpDup, p.udpLat, p.longIdle)
+	}
 	if p.nullRcmgr {
 		o.Logf("both nodes use network.NullResourceManager (no scope oracles)")
 		o.Probe("null-resource-manager")
 	}
 	finished := false
 
-	res := simrt.Run(t, simrt.Config{MaxSteps: 600000, IdleLimit: 24 * time.Hour, TraceCap: 100000}, tape.S, func() {
+	maxSteps := 600000
+	if p.transport != trTCP {
+		maxSteps = 4000000
+		restore := simrand.Install(p.randSeed) // deterministic crypto/rand (connection ids, TLS randoms) before any node exists
+		defer restore()
+	}
+	udp := func(n *simnet.Net, loss bool) {
+		c := simnet.UDPConfig{DupPermille: p.udpDup, Latencies: p.udpLat}
+		if loss {
+			c.DropPermille = p.udpDrop
+		}
+		n.SetUDP(c)
+	}
+	var net0 *simnet.Net
+	res := simrt.Run(t, simrt.Config{MaxSteps: maxSteps, IdleLimit: 24 * time.Hour, TraceCap: 100000}, tape.S, func() {
 		n := simnet.New(tape.S, simnet.Config{Mode: p.mode, Latencies: p.lat})
+		net0 = n
+		if p.transport != trTCP {
+			udp(n, false)
+		}
 		mk := func(seed int, ip string, blank bool) (*simhost.Node, host.Host, network.ResourceManager, *simhost.RefusingRcmgr) {
 			var real network.ResourceManager = &network.NullResourceManager{}
 			if !p.nullRcmgr {
@@ -788,7 +886,8 @@ func run(t *testing.T, tape *simrt.Tape) *common.Outcome {
 			if seed == 2 && p.negB != 0 {
 				ho = &basichost.HostOpts{NegotiationTimeout: p.negB}
 			}
-			nd, err := simhost.New(n, simhost.Opts{Key: simhost.DetKey(seed), IP: ip, Port: 4001, Security: p.secu, Rcmgr: rw, WithHost: !blank, HostOpts: ho})
+			nd, err := simhost.New(n, simhost.Opts{Key: simhost.DetKey(seed), IP: ip, Port: 4001, Security: p.secu, Rcmgr: rw, WithHost: !blank, HostOpts: ho,
+				QUIC: p.transport != trTCP, NoTCPListen: p.transport != trTCP, WebTransport: p.transport == trWT, NoQUICListen: p.transport == trWT})
 			if err != nil {
 				o.Trouble = "node: " + err.Error()
 				real.Close()
@@ -824,8 +923,23 @@ func run(t *testing.T, tape *simrt.Tape) *common.Outcome {
 			w.rmA.Close()
 			w.rmB.Close()
 		}()
-		w.a.PS.AddAddrs(w.b.ID, []ma.Multiaddr{w.b.Addr}, peerstore.PermanentAddrTTL)
-		w.b.PS.AddAddrs(w.a.ID, []ma.Multiaddr{w.a.Addr}, peerstore.PermanentAddrTTL)
+		target := func(nd *simhost.Node) ma.Multiaddr {
+			switch p.transport {
+			case trQUIC:
+				return nd.QAddr
+			case trWT:
+				return nd.WTAddr()
+			}
+			return nd.Addr
+		}
+		if target(w.a) == nil || target(w.b) == nil {
+			o.Trouble = "no listen address for transport " + trNames[p.transport]
+			return
+		}
+		infoA := peer.AddrInfo{ID: w.a.ID, Addrs: []ma.Multiaddr{target(w.a)}}
+		infoB := peer.AddrInfo{ID: w.b.ID, Addrs: []ma.Multiaddr{target(w.b)}}
+		w.a.PS.AddAddrs(w.b.ID, infoB.Addrs, peerstore.PermanentAddrTTL)
+		w.b.PS.AddAddrs(w.a.ID, infoA.Addrs, peerstore.PermanentAddrTTL)
 
 		o.Logf("initial handler set:")
 		for _, m := range p.initial {
@@ -842,7 +956,7 @@ func run(t *testing.T, tape *simrt.Tape) *common.Outcome {
 				defer wg.Done()
 				ctx, cancel := context.WithTimeout(context.Background(), 30*time.Second)
 				defer cancel()
-				errA = w.hA.Connect(ctx, w.b.AddrInfo())
+				errA = w.hA.Connect(ctx, infoB)
 			})
 			if p.simul {
 				wg.Add(1)
@@ -850,7 +964,7 @@ func run(t *testing.T, tape *simrt.Tape) *common.Outcome {
 					defer wg.Done()
 					ctx, cancel := context.WithTimeout(context.Background(), 30*time.Second)
 					defer cancel()
-					errB = w.hB.Connect(ctx, w.a.AddrInfo())
+					errB = w.hB.Connect(ctx, infoA)
 				})
 			}
 			wg.Wait()
@@ -902,11 +1016,16 @@ func run(t *testing.T, tape *simrt.Tape) *common.Outcome {
 				rw.Arm("SetProtocol", p.faultN)
 				w.firedAt = r
 			}
+			lossy := r < p.udpLossRounds
+			if lossy {
+				udp(n, true)
+				o.Logf("  datagram loss %d permille from now on", p.udpDrop)
+			}
 			rel := make(chan struct{})
 			w.release = rel
 			var wg, reached simsync.WaitGroup
 			for i, opl := range rp.opens {
-				op := &openRec{idx: len(w.opens), round: r, plan: opl, faultArmed: w.firedAt >= 0}
+				op := &openRec{idx: len(w.opens), round: r, plan: opl, faultArmed: w.firedAt >= 0, lossy: lossy}
 				op.nonce = fmt.Sprintf("N%03d-%07d", op.idx, (op.idx*7919+13)%10000000)
 				w.opens = append(w.opens, op)
 				wg.Add(1)
@@ -937,7 +1056,14 @@ func run(t *testing.T, tape *simrt.Tape) *common.Outcome {
 			w.auditHeld(r)
 			close(rel)
 			wg.Wait()
-			settle(2 * time.Second)
+			if lossy {
+				// faults stop; a minute without loss lets every retransmission timer fire (and a connection
+				// whose CONNECTION_CLOSE was lost run into its 30 s idle timeout) before anything is judged
+				udp(n, false)
+				settle(60 * time.Second)
+			} else {
+				settle(2 * time.Second)
+			}
 			w.auditClosed(r)
 		}
 		finished = true
@@ -954,6 +1080,19 @@ func run(t *testing.T, tape *simrt.Tape) *common.Outcome {
 	if res.Stuck || res.StepLimit || !finished {
 		o.Trouble = fmt.Sprintf("run did not finish: stuck=%v steplimit=%v", res.Stuck, res.StepLimit)
 		return o
+	}
+	if net0 != nil && p.transport != trTCP {
+		c := net0.UDPCounts()
+		keys := make([]string, 0, len(c))
+		for k := range c {
+			keys = append(keys, k)
+		}
+		sort.Strings(keys)
+		for _, k := range keys {
+			if c[k] > 0 && k != "udp-sent" && k != "udp-delivered" {
+				o.Fault(k)
+			}
+		}
 	}
 	if w.rwA.Fired+w.rwB.Fired > 0 {
 		o.Fault("rcmgr-SetProtocol-refused")
